@@ -473,6 +473,11 @@ impl EventBuffer {
             if let Some(record) = self.events.remove_first(T::is_type) {
                 T::decrement_type(&mut self.total.types);
                 self.total.classes.decrement(record.class);
+                if record.state.get() == EventState::Written {
+                    // the discarded event was part of a response awaiting confirmation
+                    T::decrement_type(&mut self.written.types);
+                    self.written.classes.decrement(record.class);
+                }
                 self.is_overflown = true;
                 Err(InsertError::Overflow {
                     created: id,
